@@ -1335,6 +1335,29 @@ func (tr *FnTrans) resolveSites() {
 			}
 			continue
 		}
+		if sd.Only {
+			n, inLoop := 0, false
+			for _, c := range calls {
+				if siteMatches(calleeName(c.in.Common()), sd.Pattern) {
+					n++
+					for _, body := range tr.loopBody {
+						for _, bb := range body {
+							if bb == c.in.Block() {
+								inLoop = true
+							}
+						}
+					}
+				}
+			}
+			var probs []string
+			if n != 1 {
+				probs = append(probs, fmt.Sprintf("%d calls match %s", n, sd.Pattern))
+			}
+			if inLoop {
+				probs = append(probs, "the call is inside a loop")
+			}
+			tr.onlyChecks = append(tr.onlyChecks, onlyCheck{sd, probs})
+		}
 		for _, c := range calls {
 			if siteMatches(calleeName(c.in.Common()), sd.Pattern) {
 				k++
@@ -2325,6 +2348,19 @@ func (tr *FnTrans) preserveLocals(st *BState, before, after *Heap) {
 	tr.preservePrivate(st, before, after)
 	for _, al := range tr.allocs {
 		if tr.escapeOf(al) {
+			// a struct variable of which only some fields have their address handed out: the
+			// other fields cannot be reached through those pointers
+			if stt, isStruct := al.Type().Underlying().(*types.Pointer).Elem().Underlying().(*types.Struct); isStruct {
+				if esc, ok := escapingFields(al); ok {
+					if v, ok := tr.vals[al]; ok {
+						for i := 0; i < stt.NumFields(); i++ {
+							if !esc[i] {
+								tr.stableCells(st, tr.fldAddr(v.T, stt, i), stt.Field(i).Type(), before, after)
+							}
+						}
+					}
+				}
+			}
 			continue
 		}
 		v, ok := tr.vals[al]
